@@ -811,7 +811,7 @@ def enc_instance(fe, p):
         th = ins.theta_value
         rows.append("%d~%s~%s~%d~%d" % (th, ins.id, kind, bounds.lower_bound_theta_value(th), bounds.upper_bound_theta_value(th)))
     terms = ";".join("%s=%s" % (k, _ser(v, env)) for k, v in fe._stack_var_to_term.items())
-    inst = [str(fe.bs), str(fe.b0), str(constants.int_limit), "1" if p.encode_terms == "uninterpreted_uf" else "0", "1" if fe._terminal else "0",
+    inst = [str(fe.bs), str(fe.b0), str(constants.int_limit), {"uninterpreted_uf": "uf", "uninterpreted_int": "ui", "stack_vars": "sv", "int": "int"}.get(p.encode_terms, "int"), "1" if fe._terminal else "0",
             ";".join(rows), ",".join(_sv(x) for x in fe.initial_stack), ",".join(_sv(x) for x in fe.final_stack), terms]
     meta = {"first": bounds.first_position_sequence, "last": bounds.last_position_sequence, "empty": bool(p.empty)}
     return inst, meta
